@@ -3,6 +3,7 @@ open XotModel.Props
 #print axioms C17_errors
 #print axioms C17_inside
 #print axioms C17_errors_content
+#print axioms C17_ordered
 #print axioms C17_span_element_start
 #print axioms C17_span_element_end
 #print axioms C17_span_attribute
@@ -11,3 +12,4 @@ open XotModel.Props
 #print axioms C17_span_comment
 #print axioms C17_span_pi
 #print axioms C17_total_top
+#print axioms C17_total
